@@ -193,3 +193,86 @@ func VerifC04SearchSet() {
 	}
 	vCover("c04-searchset-end")
 }
+
+// VerifC04MatchSet3 / VerifC04SearchSet3: three stored topics whose values are drawn from two
+// values (so one value may sit under two topics with the other value collected in between):
+// the result holds exactly the values of the matching topics, each value once.
+func VerifC04MatchSet3() {
+	L := vParam("L", 2)
+	var f [3]string
+	var v [3]int
+	t := NewStandardTree()
+	n := vString("name", L)
+	vAssume(validName(n, L))
+	for i := 0; i < 3; i++ {
+		f[i] = vString("f", L)
+		vAssume(validFilter(f[i], L))
+		v[i] = 1
+		if i > 0 {
+			v[i] = 1 + vChoice("v", 2)
+		}
+		t.Add(f[i], v[i])
+	}
+	got := t.Match(n)
+	want1, want2 := false, false
+	for i := 0; i < 3; i++ {
+		if refMatch(f[i], n) {
+			if v[i] == 1 {
+				want1 = true
+			} else {
+				want2 = true
+			}
+		}
+	}
+	cnt := 0
+	if want1 {
+		cnt++
+	}
+	if want2 {
+		cnt++
+	}
+	vAssert(has(got, 1) == want1, "value 1 returned iff a filter holding it matches")
+	vAssert(has(got, 2) == want2, "value 2 returned iff a filter holding it matches")
+	vAssert(len(got) == cnt, "each value once")
+	vCover("c04-matchset3-end")
+}
+
+func VerifC04SearchSet3() {
+	L := vParam("L", 2)
+	var nm [3]string
+	var v [3]int
+	t := NewStandardTree()
+	f := vString("filter", L)
+	vAssume(validFilter(f, L))
+	for i := 0; i < 3; i++ {
+		nm[i] = vString("n", L)
+		vAssume(validName(nm[i], L))
+		v[i] = 1
+		if i > 0 {
+			v[i] = 1 + vChoice("v", 2)
+		}
+		t.Add(nm[i], v[i])
+	}
+	got := t.Search(f)
+	want1, want2 := false, false
+	for i := 0; i < 3; i++ {
+		if refMatch(f, nm[i]) {
+			if v[i] == 1 {
+				want1 = true
+			} else {
+				want2 = true
+			}
+		}
+	}
+	cnt := 0
+	if want1 {
+		cnt++
+	}
+	if want2 {
+		cnt++
+	}
+	vAssert(has(got, 1) == want1, "value 1 returned iff a name holding it is matched")
+	vAssert(has(got, 2) == want2, "value 2 returned iff a name holding it is matched")
+	vAssert(len(got) == cnt, "each value once")
+	vCover("c04-searchset3-end")
+}
